@@ -126,7 +126,7 @@ def run(tier, seed, only):
             ctx.add(name=f"smt:c06_translate_{pol}", engine="smt:mir2smt", status="inconclusive",
                     reason="translator rejected the current source: " + str(e), functions="scylla/src/policies/retry/")
         try:
-            history(ctx, mf, reg, pol, 3 if tier == "quick" else 4)
+            history(ctx, mf, reg, pol, 3 if tier == "quick" else 5)
         except mir.Unsupported as e:
             ctx.add(name=f"smt:c06_translate_history_{pol}", engine="smt:mir2smt", status="inconclusive",
                     reason="translator rejected the current source: " + str(e), functions="scylla/src/policies/retry/")
